@@ -561,6 +561,8 @@ def run(prog, ctx):
                     res.undecided += 1
     res.rule("C02.D", n_d, 7, "Mode dispatches in HllSketch methods")
 
+    # ---------------- C02.K a decision taken after an insertion looks at the count after it (common.stale_count_decisions)
+    C.stale_count_rule(res, prog, "C02.K", "hll::", "HLL coupon list/set/array")
     res.explanation = ("structural rules over the MIR of the %d functions reachable from HllSketch::update: guarded strict max-write, slot "
                        "formula (evaluated on %d grid points), estimator pairing, replay loops, 4-bit encoding agreement, probe geometry, "
                        "dispatch completeness" % (len(reach), 18 * 12))
